@@ -8,6 +8,7 @@ from . import common as K
 from .c04 import _adapter, _data_matrix
 
 ID = "C05"
+REACH_TARGETS = [('EKF.sensor_model', 'formak.python:ExtendedKalmanFilter.sensor_model'), ('SensorModel.model', 'formak.python:SensorModel.model')]
 LEVEL = "exploration"
 RULE = ("random filter definitions with 1-3 sensors x 1-4 readings (unequal per-reading noise, "
         "string keys in shuffled insertion order or Symbol keys, calibration in h, unobserved states) "
